@@ -360,6 +360,8 @@ class Layout:
         self.escapes = kw.get("escapes", 0.0)      # probability per logical line of an escaped line break
         self.breaks = kw.get("breaks", 0.0)        # braced only: probability per token gap of a real line break
         self.contin = kw.get("contin", 0.0)        # piled only: probability per line of a deeper continuation line
+        self.commas = kw.get("commas", 0.0)        # piled only: probability per line of breaking after commas (rule 2)
+        self.closer0 = kw.get("closer0", 0.0)      # piled only: probability per line of a `)` at the statement's column (rule 3)
         self.trailws = kw.get("trailws", 0.0)
         self.piled = kw.get("piled", False)
         self._ind = {0: ""}
@@ -445,6 +447,8 @@ class Layout:
                 esc_at.add(r.randrange(1, n))
                 if r.random() < 0.3:
                     esc_at.add(r.randrange(1, n))
+            com_at = set()
+            clo_at = set()
             if n > 1 and self.piled and r.random() < self.contin:
                 brk_at.add(r.randrange(1, n))
                 if r.random() < 0.3:
@@ -453,6 +457,13 @@ class Layout:
                 # a real line break after then/else/with/add/... starts a block
                 # (isPileRequired): not a layout-only edit
                 brk_at = {i for i in brk_at if ln.toks[i - 1] not in PILE_KW}
+            elif n > 1 and self.piled and r.random() < self.commas:
+                # all continuation lines at ONE deeper column, every line but the last ends in `,`
+                com_at = {i for i in range(1, n) if ln.toks[i - 1] == "," and i not in esc_at and r.random() < 0.7}
+            if n > 1 and self.piled and r.random() < self.closer0:
+                c = [i for i in range(1, n) if ln.toks[i] == ")" and i not in esc_at and i not in brk_at and i not in com_at]
+                if c:
+                    clo_at.add(r.choice(c))
             nb = 0
             for i, t in enumerate(ln.toks):
                 if i:
@@ -473,8 +484,13 @@ class Layout:
                             cur += " --" + r.choice(COMMENT_TEXTS)
                         phys.append(cur)
                         phys += self.filler()
-                        cur = self.indent(ln.depth + 1) + " " * (nb + r.randint(0, 2)) + (" " * 3 * (nb - 1))
                         cur = self.indent(ln.depth + 1) + " " * (1 + 4 * (nb - 1) + r.randint(0, 2))
+                    elif i in com_at or i in clo_at:
+                        if r.random() < self.trail:
+                            cur += " --" + r.choice(COMMENT_TEXTS)
+                        phys.append(cur)
+                        phys += self.filler()
+                        cur = base if i in clo_at else self.indent(ln.depth + 1) + "       "
                     elif not self.piled and r.random() < self.breaks:
                         if r.random() < self.trail:
                             cur += " --" + r.choice(COMMENT_TEXTS)
@@ -539,6 +555,8 @@ def random_layout(rnd, mode, level=1.0):
         kw["inline"] = rnd.choice([0.0, 0.0, 0.5])
         kw["endpile"] = rnd.random() < 0.3
         kw["contin"] = rnd.choice([0.0, 0.0, 0.4])
+        kw["commas"] = rnd.choice([0.0, 0.0, 0.5])
+        kw["closer0"] = rnd.choice([0.0, 0.0, 0.4])
         if kw["endpile"]:
             kw["no_final_nl"] = False
     else:
